@@ -184,6 +184,28 @@ mod schema;
 mod subscription;
 mod validation;
 
+/// Verification hooks (only with `--cfg async_graphql_verif`): deterministic
+/// counters of the selection visits performed by the pre-execution checks.
+#[cfg(async_graphql_verif)]
+#[doc(hidden)]
+pub mod verif_hooks {
+    use std::sync::atomic::{AtomicU64, Ordering};
+
+    pub static VISITS_VALIDATION: AtomicU64 = AtomicU64::new(0);
+    pub static VISITS_RECURSION: AtomicU64 = AtomicU64::new(0);
+    pub static VISITS_DIRECTIVES: AtomicU64 = AtomicU64::new(0);
+
+    /// Read and reset the three counters (validation visitor, recursion-depth
+    /// walker, directive-limit walker).
+    pub fn take_visits() -> (u64, u64, u64) {
+        (
+            VISITS_VALIDATION.swap(0, Ordering::SeqCst),
+            VISITS_RECURSION.swap(0, Ordering::SeqCst),
+            VISITS_DIRECTIVES.swap(0, Ordering::SeqCst),
+        )
+    }
+}
+
 pub mod context;
 #[cfg(feature = "dataloader")]
 #[cfg_attr(docsrs, doc(cfg(feature = "dataloader")))]
